@@ -1,4 +1,5 @@
 import RactorModel.Lemmas.TimersProps
+import RactorModel.Lemmas.TimersDrop
 
 /-!
 # C12 — timers fire once, never early, and die with their target
@@ -136,7 +137,80 @@ theorem exit_reason (ops : List Op) (r : Reason) (te : Nat)
 /-- The documented reason string (compared verbatim with what the real supervisor receives). -/
 theorem reason_string (p : Nat) : (Reason.exitAfter p).render = "Exit after " ++ toString p ++ "ms" := rfl
 
+/-! ### Round 4: boundary periods, dropped handles -/
+
+/-- A timer whose period reaches beyond the present never acted (corollary of `never_early`; it is
+what makes huge periods — `Duration::MAX`, `u64::MAX` µs — harmless: within any horizon the clock
+reaches, such a timer does nothing). With period 0 the hypothesis is unsatisfiable, as it must be. -/
+theorem beyond_horizon (ops : List Op) (τ : Timer) (hτ : τ ∈ (steps init ops).timers)
+    (hlt : (steps init ops).now < τ.created + τ.period) : τ.sentAt = [] :=
+  beyond_horizon' (Inv.init.steps ops) τ hτ hlt
+
+/-- Period 0, one-shot timers (`send_after(0)`, `exit_after(0)`, `kill_after(0)`): for every schedule at
+most one action, not before the API call (`never_early` at period 0 is `created ≤ t`, not vacuous:
+the clock may have moved before the first poll); in a quiescent run a timer created on the
+millisecond grid has acted — or was aborted — by the end of the macro op that created it. -/
+theorem zero_period_oneshot (ms : List MOp) (τ : Timer) (hτ : τ ∈ (mrun init ms).timers)
+    (hk : τ.kind.oneShot = true) (hz : τ.period = 0) :
+    τ.sentAt.length ≤ 1 ∧ (∀ t ∈ τ.sentAt, τ.created ≤ t) ∧ (τ.created % 1000 = 0 → τ.res ≠ .pending) := by
+  obtain ⟨ops, e⟩ := mrun_eq_steps init ms
+  have h := oneShot_once_never_early' (e ▸ Inv.init.steps ops) τ hτ hk
+  refine ⟨h.1, fun t ht => ?_, zero_oneshot_gone (BInv.init.mrun ms) τ hτ hk hz⟩
+  have := h.2 t ht
+  omega
+
+/-- `send_interval(Duration::ZERO)`: `tokio::time::interval` panics inside the spawned task. For
+every schedule such a timer never gets armed and never sends; only such a timer panics; the poll of
+a pending one ends it with `panicked` and leaves the target alone; and at every quiescent point it
+is gone (panicked, or aborted before its first poll). -/
+theorem zero_interval_panics (ops : List Op) :
+    (∀ τ ∈ (steps init ops).timers, τ.kind = .interval → τ.period = 0 → τ.sentAt = [] ∧ τ.armed = none) ∧
+    (∀ τ ∈ (steps init ops).timers, τ.res = .panicked → τ.kind = .interval ∧ τ.period = 0) ∧
+    (∀ i τ, (steps init ops).timers[i]? = some τ → τ.kind = .interval → τ.period = 0 → τ.res = .pending →
+      (step (steps init ops) (.fire i)).timers[i]? = some (τ.finish .panicked (steps init ops).now) ∧
+      (step (steps init ops) (.fire i)).target = (steps init ops).target) :=
+  ⟨fun τ hτ => zero_interval' (Inv.init.steps ops) τ hτ,
+   fun τ hτ => ((Inv.init.steps ops).tinv τ hτ).panic,
+   fun i τ hi => zero_interval_fire _ i τ hi⟩
+
+theorem zero_interval_gone_when_quiescent (ms : List MOp) (τ : Timer) (hτ : τ ∈ (mrun init ms).timers)
+    (hk : τ.kind = .interval) (hz : τ.period = 0) : τ.res ≠ .pending :=
+  zero_interval_gone (BInv.init.mrun ms) τ hτ hk hz
+
+/-- Dropping `JoinHandle`s changes nothing anybody but the handle's owner can see: for every
+schedule, the run with the drops and the run with the drops erased agree on the clock, the
+target (mailbox, handled messages, exit, reason), every timer's whole history and result, and the
+quiescent points — they differ only in the ghost set `dropped`. (The task is detached, not cancelled.) -/
+theorem drop_handle_frame (ops : List Op) :
+    (steps init ops).seen = steps init (ops.filter (fun o => !o.isDrop)) :=
+  steps_seen ops init
+
+/-- The same for the macro ops the harness executes: erase `dropHandle`, turn `advDrop d i` into
+`adv d` — clock, target and timers are the same (only a quiescent point fewer is recorded). -/
+theorem drop_handle_frame_macro (ms : List MOp) :
+    (mrun init ms).now = (mrun init (undrop ms)).now ∧ (mrun init ms).target = (mrun init (undrop ms)).target ∧
+      (mrun init ms).timers = (mrun init (undrop ms)).timers :=
+  mrun_undrop ms ⟨rfl, rfl, rfl⟩
+
 /-! ### Non-vacuity -/
+
+/-- send_interval(0): panicked at the first poll, nothing sent, the target untouched; a later abort changes nothing -/
+example : let s := mrun init [.create .interval 0, .adv 5000, .abort 0]
+    s.timers.map (fun τ => (τ.res, τ.sentAt, τ.finAt)) = [(.panicked, [], some 0)] ∧ s.target.exit = none := by decide
+/-- one-shots of period 0 act in the op that creates them; off the grid at the next boundary -/
+example : let s := mrun init [.create .sendAfter 0, .create .exitAfter 0]
+    s.timers.map (fun τ => (τ.res, τ.sentAt)) = [(.ok, [0]), (.ok, [0])] ∧ s.target.exit = some (.exitAfter 0, 0) := by decide
+example : let s := mrun init [.adv 1500, .create .killAfter 0]
+    s.timers.map (·.res) = [.pending] ∧ s.target.exit = none := by decide
+/-- a period beyond the horizon: Duration::MAX in µs, an hour later nothing has happened -/
+example : let s := mrun init [.create .sendAfter 18446744073709551615999999, .create .interval 18446744073709551615, .adv 3600000000]
+    s.timers.map (fun τ => (τ.res, τ.sentAt)) = [(.pending, []), (.pending, [])] := by decide
+/-- drop vs abort at the deadline (clock moved, task not yet polled): the dropped one fires, the aborted one does not -/
+example : let s := mrun init [.create .sendAfter 5000, .create .sendAfter 5000, .advDrop 5000 0, .abort 1]
+    s.timers.map (fun τ => (τ.res, τ.sentAt)) = [(.ok, [5000]), (.ok, [5000])] ∧ s.dropped = [0] := by decide
+example : let s := mrun init [.create .sendAfter 5000, .create .sendAfter 5000, .dropHandle 0, .advAbort 5000 1]
+    s.timers.map (fun τ => (τ.res, τ.sentAt)) = [(.ok, [5000]), (.cancelled, [])] ∧ s.target.handled = [(0, 1, 5000)] := by decide
+example : undrop [.create .sendAfter 5000, .dropHandle 0, .advDrop 5000 0] = [.create .sendAfter 5000, .adv 5000] := rfl
 
 /-- an interval of 3 ms over quiescent points 0,3,6,8,9,19 ms: messages at 3, 6, 9, then a burst of three at 19 -/
 example : ((mrun init [.create .interval 3000, .adv 3000, .adv 3000, .adv 2000, .adv 1000, .adv 10000]).timers.map (·.sentAt))
@@ -211,3 +285,9 @@ end C12
 #print axioms C12.handle_reports_send
 #print axioms C12.exit_reason
 #print axioms C12.reason_string
+#print axioms C12.beyond_horizon
+#print axioms C12.zero_period_oneshot
+#print axioms C12.zero_interval_panics
+#print axioms C12.zero_interval_gone_when_quiescent
+#print axioms C12.drop_handle_frame
+#print axioms C12.drop_handle_frame_macro
